@@ -1,13 +1,16 @@
 T = "GeomV.C13."
 CFG = {
     "id": "C13",
-    "lean_modules": ["GeomV.C13.Proofs"],
+    "lean_modules": ["GeomV.C13.Proofs", "GeomV.C13.Ties"],
     "exe": "geomv_c13",
     "go_cmd": "c13",
     "stages": ["go:gen", "go:impl", "lean:judge"],
     "theorems": [T + n for n in [
         "C13_terminates", "C13_terminates_methods", "C13_subsequence", "C13_endpoints", "C13_tolerance", "C13_tolerance_meaning",
         "C13_members_independent", "C13_input_unchanged", "C13_simple", "C13_segsMeet_meaning", "C13_simple_partial", "C13_judge_embeds_sound",
+        "C13_tie_pointSubtract", "C13_tie_dot", "C13_tie_norm", "C13_tie_d", "C13_tie_lengthToOrigin",
+        "C13_tie_distPointToSegment", "C13_tie_findIntersection2", "C13_tie_findIntersection2_nan", "C13_tie_findIntersection",
+        "C13_gen_far_spec", "C13_gen_count_zero_iff_not_meet",
     ]],
     "trusted_base": [
         "Lean 4.33.0 kernel; axioms of every theorem printed by #print axioms must be within {propext, Classical.choice, Quot.sound}",
@@ -16,10 +19,16 @@ CFG = {
         "IEEE-754 rounding is modelled, not verified: on the generator's integer grids every product in findIntersection is exact and every "
         "distance test the model makes is re-evaluated with a bit-exact float replica of distPointToSegment; cases where float and exact "
         "disagree (or |d^2-tol^2| <= 1e-9 tol^2) are classed `-neartie` and not compared",
+        "T1: harness/cmd/c13/extract.go (go/ast + go/constant, ~550 lines) regenerates lean/GeomV/C13/Gen.lean (pointSubtract, dot, norm, d, "
+        "distPointToSegment, lengthToOrigin, findIntersection2, findIntersection[first result]) from the tree under test on every run; "
+        "Ties.lean proves each equal to the model function (lengths through their squares); the symbolic treatment of math.Sqrt "
+        "(GenLib.lean: Len, Surd, OverLen with exact sign-and-square comparisons and IEEE 0/0, a/0) and the dead-variable rule of the "
+        "translator are part of the trusted base and are exercised by the correspondence run; the loop nest (simplifyCurve, "
+        "segMakesNotSimple, the four Simplify methods) is tied by a canonical token skeleton compared with harness/cmd/c13/skeleton.expected.txt",
         "harness/cmd/c13 + lean driver + lib/vcheck.py transport inputs faithfully",
     ],
     "assumptions": [
-        "finite coordinates (no NaN/Inf); tolerance finite",
+        "finite coordinates (no NaN/Inf); tolerance finite; coordinate differences zero or within (2^-500, 2^500) (beyond that range distPointToSegment rescales, and findIntersection overflows; the T1 tie of distPointToSegment is stated in range)",
         "simplicity preservation is claimed for open line strings that are simple and in general position (vertices pairwise distinct, no three collinear)",
     ],
     "rule": "fixed corpus (lengths 0,1,2,3 for every type and tolerance, TestSimplify's curves, closing-segment witness, collinear/duplicate/"
@@ -31,3 +40,66 @@ CFG = {
     "timeout": {"quick": 900, "thorough": 3000},
     "impl_mem_gb": 24,
 }
+
+
+def pregen(check):
+    """T1: regenerate Gen.lean from the Go source of the tree under test (written only when it changed) and
+    compare the control skeleton of the loop functions with the committed one"""
+    import os, subprocess
+    import vcheck
+    ok, gobin, out = vcheck.go_build("c13", check.rundir)
+    if not ok:
+        return  # reported as a broken tie by the harness build of the main flow
+    p = subprocess.run([gobin, "extract", "--repo", vcheck.REPO], stdout=subprocess.PIPE, stderr=subprocess.PIPE, text=True)
+    if p.returncode != 0:
+        check.broken.append("T1 tie: simplify.go/intersection.go left the translatable subset: " + p.stderr.strip()[-300:])
+    else:
+        gen = os.path.join(vcheck.LEAN, "GeomV", "C13", "Gen.lean")
+        old = open(gen).read() if os.path.exists(gen) else ""
+        if old != p.stdout:
+            with open(gen + ".tmp", "w") as f:
+                f.write(p.stdout)
+            os.replace(gen + ".tmp", gen)
+    q = subprocess.run([gobin, "skeleton", "--repo", vcheck.REPO], stdout=subprocess.PIPE, stderr=subprocess.PIPE, text=True)
+    if q.returncode != 0:
+        check.broken.append("T1 skeleton: " + q.stderr.strip()[-300:])
+        return
+    want = open(os.path.join(vcheck.HARNESS, "cmd", "c13", "skeleton.expected.txt")).read().split("\n")
+    got = q.stdout.split("\n")
+    fn = "?"
+    for i in range(max(len(want), len(got))):
+        w = want[i] if i < len(want) else "<end>"
+        g = got[i] if i < len(got) else "<end>"
+        if g.startswith("== "):
+            fn = g[3:]
+        if w != g:
+            check.broken.append("T1 skeleton: simplify.go %s differs from the modelled control structure at skeleton line %d: "
+                                "source has `%s`, model was written for `%s`" % (fn, i + 1, g.strip(), w.strip()))
+            break
+
+
+CFG["pregen"] = pregen
+
+
+def post(check, pairs, stats):
+    """name the tie lemma(s) that no longer prove when lake build of Ties.lean failed"""
+    import os, re
+    import vcheck
+    log = getattr(check, "lake_log", "")
+    if "Ties.lean" not in log:
+        return
+    src = open(os.path.join(vcheck.LEAN, "GeomV", "C13", "Ties.lean")).read().split("\n")
+    names = []
+    for m in re.finditer(r"error: \S*Ties\.lean:(\d+):\d+", log):
+        ln = int(m.group(1))
+        for k in range(min(ln, len(src)) - 1, -1, -1):
+            t = re.match(r"\s*theorem\s+(\S+)", src[k])
+            if t:
+                if t.group(1) not in names:
+                    names.append(t.group(1))
+                break
+    if names:
+        check.broken.append("T1 tie: the regenerated definitions no longer satisfy: " + ", ".join(names))
+
+
+CFG["post"] = post
